@@ -448,8 +448,8 @@ theorem BW.step {s : FleetStore} (hk : KT s) (h : BW s) (op : Op) : BW (s.step o
   have h' := h.clear
   have hk' := hk.clear
   cases op with
-  | reservePut p => exact h'.of_b _ (reservePut_frame _ p)
-  | reserveGet p => exact h'.of_b _ (reserveGet_frame _ p)
+  | reservePut p => exact h'.of_b _ (reservePutP_frame _ p 0)
+  | reserveGet p => exact h'.of_b _ (reserveGetP_frame _ p 0)
   | reservePutP p pr => exact h'.of_b _ (reservePutP_frame _ p pr)
   | reserveGetP p pr => exact h'.of_b _ (reserveGetP_frame _ p pr)
   | put p t x => exact h'.put p t x
